@@ -49,7 +49,15 @@ def parse_instant(s, tz):
 def iso_local(d, tz):
     """aware UTC datetime -> naive ISO string in wall-clock time of tz (UTC if None)."""
     loc = d.astimezone(ZoneInfo(tz)) if tz else d.astimezone(UTC)
-    return loc.replace(tzinfo=None).isoformat(timespec="minutes")
+    naive = loc.replace(tzinfo=None)
+    if tz:
+        # an ambiguous wall-clock time (autumn switch) cannot be given naively: keep the offset
+        z = ZoneInfo(tz)
+        a = naive.replace(tzinfo=z, fold=0).astimezone(UTC)
+        b = naive.replace(tzinfo=z, fold=1).astimezone(UTC)
+        if a != b or a != d:
+            return loc.isoformat(timespec="minutes")
+    return naive.isoformat(timespec="minutes")
 
 
 def _wall(d, tz):
